@@ -425,10 +425,50 @@ func normalizeSetField(
 	case isSub(old) && isSub(val):
 		cfgOld, _ := old.toConfig(opts)
 		cfgVal, _ := val.toConfig(opts)
+		// two spellings of one namespace are folded together; a setting that both
+		// of them define is a duplicate like any other
+		if dup, found := duplicateSetting(cfgOld, cfgVal, name, opts.pathSep); found {
+			return raiseDuplicateKey(cfg, dup)
+		}
 		return mergeConfig(opts, cfgOld, cfgVal)
 	default:
 		return raiseDuplicateKey(cfg, name)
 	}
+}
+
+// duplicateSetting reports the first setting (in sorted order) that a and b both
+// define with a value other than a namespace or nil.
+func duplicateSetting(a, b *Config, prefix, sep string) (string, bool) {
+	if sep == "" {
+		sep = "."
+	}
+	check := func(name string, va, vb value) (string, bool) {
+		if isNil(va) || isNil(vb) {
+			return "", false
+		}
+		if sa, ok := va.(cfgSub); ok {
+			if sb, ok := vb.(cfgSub); ok {
+				return duplicateSetting(sa.c, sb.c, name, sep)
+			}
+		}
+		return name, true
+	}
+
+	da, db := a.fields.dict(), b.fields.dict()
+	for _, k := range sortedKeys(db) {
+		if va, ok := da[k]; ok {
+			if dup, found := check(prefix+sep+k, va, db[k]); found {
+				return dup, true
+			}
+		}
+	}
+	aa, ab := a.fields.array(), b.fields.array()
+	for i := 0; i < len(aa) && i < len(ab); i++ {
+		if dup, found := check(fmt.Sprintf("%s%s%d", prefix, sep, i), aa[i], ab[i]); found {
+			return dup, true
+		}
+	}
+	return "", false
 }
 
 func normalizeStructValue(opts *options, ctx context, from reflect.Value) (value, Error) {
